@@ -43,7 +43,8 @@ func genDeep(kind string) func(t *rapid.T) Case {
 	return func(t *rapid.T) Case {
 		c := Case{Cfg: refl.GenCfg(t, kind)}
 		if kind == "btree" {
-			c.Cfg.Order = []int{3, 3, 4}[rapid.IntRange(0, 2).Draw(t, "order")]
+			c.Cfg.Order = 3 // the deepest tree for the number of keys (height >= 5 from 31 keys on)
+			_ = rapid.IntRange(0, 2).Draw(t, "order")
 		}
 		if kind == "circularbuffer" {
 			c.Cfg.Cap = []int{64, 100}[rapid.IntRange(0, 1).Draw(t, "cap")]
